@@ -23,6 +23,8 @@ class Contract:
     ensures: dict = field(default_factory=dict)
     raises: dict = field(default_factory=dict)     # exception name -> condition text over the pre-state
     modifies: list = field(default_factory=list)   # locations: 'self.graph', 'jt', ...
+    hints: dict = field(default_factory=dict)      # goal clause name -> labelled hypotheses (clause names) to keep in the first attempt
+    cuts: dict = field(default_factory=dict)       # statement-source prefix -> {name: expr}: intermediate assertions (proved, then assumed)
     loops: dict = field(default_factory=dict)      # loop key (header text, '#k' suffix for duplicates) -> LoopSpec
     locals: dict = field(default_factory=dict)     # local name -> type text (for empty literals)
     properties: list = field(default_factory=list)  # property ids this contract serves
